@@ -308,17 +308,21 @@ impl Ctx {
                 let max = lim(a[3]);
                 let flags = num(a[4]) as u32;
                 self.snapshot_d();
+                let before = self.buf.clone();
                 let (st, ic, oc) = decompress_with_limit(&mut self.d, &inp, &mut self.buf, pos, max, flags);
                 let lo = pos.min(self.buf.len());
                 let hi = (pos.saturating_add(oc)).min(self.buf.len());
+                // every byte outside [pos, pos+out) must be what it was before the call
+                let untouched = before[..lo] == self.buf[..lo] && before[hi..] == self.buf[hi..];
                 format!(
-                    "st={} in={} out={} o={} bh={:016x} ad={}",
+                    "st={} in={} out={} o={} bh={:016x} ad={} outside={}",
                     st as i8,
                     ic,
                     oc,
                     show(&self.buf[lo..hi]),
                     fnv(&self.buf),
-                    self.d.adler32().map_or(-1i64, |x| x as i64)
+                    self.d.adler32().map_or(-1i64, |x| x as i64),
+                    if untouched { "same" } else { "CHANGED" }
                 )
             }
             "drive" => self.drive(a),
